@@ -253,7 +253,7 @@ func init() {
 				if err := json.Unmarshal(raw, &in); err != nil {
 					return err
 				}
-				if err := c.Emit("pcv", in, runPcv(in)); err != nil {
+				if err := c.Emit("pcv", withProp(in), runPcv(in)); err != nil {
 					return err
 				}
 			}
@@ -266,7 +266,7 @@ func init() {
 				if err := json.Unmarshal(raw, &in); err != nil {
 					return err
 				}
-				if err := c.Emit("pcvops", in, runPcvOps(in)); err != nil {
+				if err := c.Emit("pcvops", withProp(in), runPcvOps(in)); err != nil {
 					return err
 				}
 			}
@@ -275,13 +275,13 @@ func init() {
 		for i := 0; i < c.N; i++ {
 			if i%3 == 2 {
 				in := genPcvOpsIn(c)
-				if err := c.Emit("pcvops", in, runPcvOps(in)); err != nil {
+				if err := c.Emit("pcvops", withProp(in), runPcvOps(in)); err != nil {
 					return err
 				}
 				continue
 			}
 			in := genPcvIn(c)
-			if err := c.Emit("pcv", in, runPcv(in)); err != nil {
+			if err := c.Emit("pcv", withProp(in), runPcv(in)); err != nil {
 				return err
 			}
 		}
